@@ -19,6 +19,8 @@ struct Task {
   pthread_t th{};
   sem_t sem;
   bool finished = false;
+  bool started = true;            // waves: the pthread of a later wave is only created when the earlier waves have exited
+  int wave = 0;
   uintptr_t blocked_on = 0;
   TaskCtx ctx{};
   uint32_t vc[MAXTASK] = {0};
@@ -116,7 +118,7 @@ void race_touch(uintptr_t a, size_t n, bool write, uintptr_t pc) {
 }
 
 // ------------------------------------------------------------------ baton
-static bool runnable(const Task* t) { return !t->finished && !t->blocked_on; }
+static bool runnable(const Task* t) { return t->started && !t->finished && !t->blocked_on; }
 
 static void record_dir(int task, uint64_t at, int to) {
   SH->sched_hash = splitmix64(SH->sched_hash ^ ((uint64_t)task << 48) ^ (at << 8) ^ (uint64_t)to);
@@ -256,7 +258,7 @@ static void* thread_main(void* arg) {
     sem_post(&T[to]->sem);
   } else {
     bool all = true;
-    for (Task* u : T) all = all && u->finished;
+    for (Task* u : T) all = all && (u->finished || !u->started);
     if (!all) {
       violation("deadlock", "scheduler", "tasks blocked with no runnable task at the end of task %d", t->id);
       child_exit(0);
@@ -267,7 +269,7 @@ static void* thread_main(void* arg) {
   return nullptr;
 }
 
-void run_tasks(const SchedCfg& cfg, std::vector<std::function<void()>>& bodies) {
+void run_tasks(const SchedCfg& cfg, std::vector<std::function<void()>>& bodies, const std::vector<int>& waves) {
   g_cfg = cfg;
   g_srng.reseed(cfg.seed ^ 0x5ced5ced5cedULL);
   g_shadow.clear();
@@ -312,25 +314,37 @@ void run_tasks(const SchedCfg& cfg, std::vector<std::function<void()>>& bodies) 
   pthread_attr_t at;
   pthread_attr_init(&at);
   pthread_attr_setstacksize(&at, 1 << 20);
-  for (Task* t : T) {
-    if (pthread_create(&t->th, &at, thread_main, t) != 0) {
-      fprintf(stderr, "xrlsim: pthread_create failed\n");
-      child_exit(3);
+  int maxwave = 0;
+  for (int i = 0; i < n; i++) { T[i]->wave = i < (int)waves.size() ? waves[i] : 0; T[i]->started = false; if (T[i]->wave > maxwave) maxwave = T[i]->wave; }
+  g_threads_mode = true;
+  TaskCtx* saved = t_task;
+  // Thread lifecycle: the tasks of wave w+1 get their pthreads only after every task of wave w has exited and been
+  // joined, so they typically reuse the stacks, TLS blocks and pthread_t values of the dead threads.  Everything a
+  // finished task did happens-before the start of a later wave.
+  for (int w = 0; w <= maxwave; w++) {
+    uint32_t base[MAXTASK] = {0};
+    for (Task* u : T)
+      if (u->finished) for (int k = 0; k < MAXTASK; k++) if (u->vc[k] > base[k]) base[k] = u->vc[k];
+    int first = -1, bp = -1;
+    for (Task* t : T) {
+      if (t->wave != w) continue;
+      for (int k = 0; k < MAXTASK; k++) if (base[k] > t->vc[k]) t->vc[k] = base[k];
+      t->started = true;
+      if (pthread_create(&t->th, &at, thread_main, t) != 0) {
+        fprintf(stderr, "xrlsim: pthread_create failed\n");
+        child_exit(3);
+      }
+      if (first < 0) first = t->id;
+      if (cfg.policy == SP_PCT && t->prio > bp) { bp = t->prio; first = t->id; }
     }
+    if (first < 0) continue;
+    if (w > 0) logf("WAVE %d starts", w);
+    g_cur = first;
+    sem_post(&T[first]->sem);
+    sem_wait(&g_ctrl);
+    for (Task* t : T) if (t->wave == w) pthread_join(t->th, nullptr);
   }
   pthread_attr_destroy(&at);
-  g_threads_mode = true;
-  int first = 0;
-  if (cfg.policy == SP_PCT) {
-    int bp = -1;
-    for (Task* u : T)
-      if (u->prio > bp) { bp = u->prio; first = u->id; }
-  }
-  TaskCtx* saved = t_task;
-  g_cur = first;
-  sem_post(&T[first]->sem);
-  sem_wait(&g_ctrl);
-  for (Task* t : T) pthread_join(t->th, nullptr);
   g_threads_mode = false;
   g_cur = -1;
   t_task = saved;
